@@ -177,6 +177,9 @@ class Lemma:
     def statement(self, **a):
         return {}
 
+    def setup(self, I):
+        pass
+
     def name(self):
         return type(self).__name__
 
@@ -218,6 +221,7 @@ def verify_contract(c: Contract, registry: Dict[str, Contract], timeout_ms=core.
         covers = {"requires_sat": False, "normal_exit": 0, "exc_exit": 0}
 
         def body(p):
+            p.ghost["interp"] = I
             args = c.make_args()
             pre = c.requires(**_kw(args))
             for _, g in _conj_items(pre):
@@ -344,6 +348,8 @@ def verify_lemma(l: Lemma, timeout_ms=core.QUICK_MS) -> dict:
         ex = Explorer(timeout_ms=timeout_ms)
 
         def body(p):
+            p.ghost["interp"] = Interp()
+            l.setup(p.ghost["interp"])
             args = {k: T.fresh_value(t, k) for k, t in l.params.items()}
             for name, g in _conj_items(l.statement(**args)):
                 p.check(g, f"lemma.{l.name()}.{name}")
